@@ -420,7 +420,7 @@ func has(xs []uint64, x uint64) bool {
 }
 
 // runImpl runs the real handleMessage and renders the observation exactly like drv_c23.
-func runImpl(ci *caseIn) (obs string, routed []uint64, panicked any) {
+func runImpl(ci *caseIn, misrouted *[]string) (obs string, routed []uint64, panicked any) {
 	var evs []string
 	fm := map[uint32]bool{}
 	for _, t := range ci.failMsg {
@@ -450,6 +450,11 @@ func runImpl(ci *caseIn) (obs string, routed []uint64, panicked any) {
 				return nil
 			}
 			evs = append(evs, fmt.Sprintf("R%d:%s", id, hc.Hex(b.Buf)))
+			// property monitor: an rpc_error must reach the caller as an error, never as a result body
+			var re mt.RPCError
+			if pid, perr := b.PeekID(); perr == nil && pid == mt.RPCErrorTypeID && re.Decode(&bin.Buffer{Buf: exact(b.Buf)}) == nil {
+				*misrouted = append(*misrouted, fmt.Sprintf("request %d received rpc_error %d %q as an ordinary result", id, re.ErrorCode, re.ErrorMessage))
+			}
 			if fail {
 				return errors.New("output decode failed")
 			}
@@ -629,7 +634,11 @@ func run(c *hc.Ctx) error {
 	for i, p := range payloads {
 		ci := prepare(r, p, pool)
 		line := ci.line()
-		obs, routed, pan := runImpl(ci)
+		var misrouted []string
+		obs, routed, pan := runImpl(ci, &misrouted)
+		for _, m := range misrouted {
+			c.Fail("rpc-error-delivered-as-result", line, m)
+		}
 		c.Count("kind." + kinds[i])
 		if len(p) >= 4 {
 			c.Count(fmt.Sprintf("type.%08x", func() uint32 {
